@@ -641,7 +641,8 @@ class GetDescriptorHandlerMux(Elaboratable):
                 handler.start_position  .eq(self.start_position),
             ]
             stall_latch = Signal(name=f"stall_latch_{i}")
-            m.d.comb += stalled[i].eq(handler.stall | stall_latch)
+            # A latch describes the transaction that is ending: it must not be seen in the cycle a new one starts.
+            m.d.comb += stalled[i].eq(handler.stall | (stall_latch & ~self.start))
             with m.If(self.start | self.stall):
                 m.d.sync += stall_latch.eq(0)
             with m.If(handler.stall & ~self.stall):
